@@ -36,10 +36,28 @@ func bufState(state int) ([]byte, []byte) {
 	return nil, nil
 }
 
+// appendFloat64f is the formatter under test: the repository's AppendFloat64f through the seam, or, when the
+// seam does not compile against the tree (internal/ryu's API changed), the text ToJSON writes for a one-cell
+// frame (the buffer states then only vary the prefix the text is appended to here).
+func appendFloat64f(dst []byte, f float64) []byte {
+	if seam.RyuAvailable {
+		return seam.AppendFloat64f(dst, f)
+	}
+	var buf bytes.Buffer
+	if err := qframe.New(map[string]interface{}{"f": []float64{f}}).ToJSON(&buf); err != nil {
+		return append(dst, "<ToJSON error>"...)
+	}
+	b := buf.Bytes() // [{"f":<text>}]
+	if len(b) < 9 {
+		return append(dst, b...)
+	}
+	return append(dst, b[6:len(b)-2]...)
+}
+
 func checkFloat(bits uint64, state int) *core.Failure {
 	f := math.Float64frombits(bits)
 	dst, prefix := bufState(state)
-	out := seam.AppendFloat64f(dst, f)
+	out := appendFloat64f(dst, f)
 	want := strconv.FormatFloat(f, 'f', -1, 64)
 	if len(out) < len(prefix) || !bytes.Equal(out[:len(prefix)], prefix) {
 		return core.Failf("AppendFloat64f(%#x = %g) state %d damaged the prefix %q: %q", bits, f, state, prefix, out)
@@ -139,6 +157,9 @@ func f1Mantissas() []uint64 {
 }
 
 func c16Run(ctx *core.Ctx) {
+	if !seam.RyuAvailable {
+		ctx.Note("the seam into internal/ryu does not compile against this tree: every value is formatted through ToJSON of a one-cell frame instead; the destination-buffer states are not exercised")
+	}
 	var evals, nontrivCount int64
 	try := func(bits uint64, family string, track bool) {
 		f := math.Float64frombits(bits)
@@ -272,7 +293,7 @@ func c16Run(ctx *core.Ctx) {
 		ctx.Outcome("ToJSON")
 	}
 	// F4 (thorough): all 2^32 float32 values widened to float64, two buffer states alternating
-	if !ctx.Quick() {
+	if !ctx.Quick() && seam.RyuAvailable {
 		for hi := uint32(0); hi < 1<<16; hi++ {
 			if !ctx.Mine() {
 				continue
@@ -287,7 +308,7 @@ func c16Run(ctx *core.Ctx) {
 				state := int(lo&1) * 3
 				evals++
 				dst, prefix := bufState(state)
-				out := seam.AppendFloat64f(dst, f)
+				out := appendFloat64f(dst, f)
 				want := strconv.AppendFloat(prefix, f, 'f', -1, 64)
 				if !bytes.Equal(out, want) {
 					ctx.Report(floatCase{Bits: math.Float64bits(f), State: state}, core.Failf("AppendFloat64f(float32 %#x = %g): %q, strconv gives %q", u, f, out, want))
